@@ -423,6 +423,23 @@ class Executor:
     def s_FunctionDef(self, s, st):
         return [(st, "normal", None)]  # nested defs are separate functions under their own contract
 
+    def s_Delete(self, s, st):
+        for t in s.targets:
+            if (isinstance(t, ast.Subscript) and isinstance(t.slice, ast.Slice) and t.slice.upper is None
+                    and t.slice.step is None and t.slice.lower is not None):
+                ev = Eval(self, st)
+                base = ev.expr(t.value)
+                lo = ev.expr(t.slice.lower)
+                if not isinstance(base.t, TList) or lo.t != INT:
+                    raise Unsupported("del on " + str(base.t))
+                ln = list_len(base)
+                # del xs[k:] : keep the first k elements (k >= 0 here; python clamps k to len)
+                self.side_obligation(st, "slice-nonneg", lo.z >= 0, t, [])
+                self.assign(st, t.value, mk_list(base.t, z3.If(lo.z < ln, lo.z, ln), list_arr(base)), ev)
+            else:
+                raise Unsupported("del " + ast.unparse(t))
+        return [(st, "normal", None)]
+
     def s_Global(self, s, st):
         raise Unsupported("global")
 
